@@ -146,7 +146,7 @@ prop("C18",
      assumptions=["each Queue method is atomic (holds the mutex for its whole body)"],
 )
 
-_TRIE_COQ = ["model/Trie.v", "model/Match.v", "proofs/TrieProofs.v", "proofs/TrieHistory.v", "chk/C01chk.v"]
+_TRIE_COQ = ["gen/Extracted.v", "model/Trie.v", "model/Match.v", "proofs/TrieProofs.v", "proofs/TrieHistory.v", "chk/C01chk.v"]
 _TRIE_RULE = ("histories of 6-35 operations on a topics provider (2/3 memlockfree, 1/3 mem) with recording stub subscribers: subscribe/resubscribe (3 sessions, QoS 0-2, Retain Handling 0-2), "
     "unsubscribe, retained set/clear (QoS 0-2, empty payload, already-expired), publish, Retained(filter); topics and filters over the level alphabet {a, b, empty, $s, e-acute, +, #}, depth 1-4, "
     "biased to re-use earlier filters/topics and to derive topics from filters (that is where pruning and wildcards decide). Publish barrier: sentinel publish (single routing worker); "
@@ -366,10 +366,11 @@ prop("C09",
      coq=["gen/Extracted.v", "model/Trie.v", "model/Match.v", "model/LFProto.v", "proofs/LFProofs.v", "model/LFSearch.v", "model/LFShape.v", "proofs/LFSearchProofs.v", "chk/C01chk.v", "chk/C09chk.v", "props/C09.v", "refute/C09.v"],
      n={"quick": 64, "thorough": 600, "search": 200},
      shrink_fields=["rounds"], shrink_min=1,
-     rule="5/8 'rounds': 30-70 (thorough 100-300) rounds on the real memlockfree provider; in a round 2-6 operations (Subscribe / UnSubscribe / Retain on a pool of shared and nested filters, every key touched at most once per round) "
+     rule="4/8 'rounds': 30-70 (thorough 100-300) rounds on the real memlockfree provider; in a round 2-6 operations (Subscribe / UnSubscribe / Retain on a pool of shared and nested filters, every key touched at most once per round) "
           "are issued at the same moment from goroutines of their own and served by the provider's worker goroutines, 0-2 publishes are issued during the round; at quiescence 1-3 probe publishes and sometimes Retained(filter) are compared "
           "with the sequential model applied in any order (distinct keys commute), the concurrent publishes with a lower (untouched subscriptions) and an upper bound; rounds that never complete within 10 s are a deadlock. Round templates aim at "
-          "the racy spots: everybody leaves one filter at once, the last subscriber leaves while another arrives at the same / a nested filter. 3/8 'gated': the three schedules of refute/C09.v forced on the provider through the subscriber's "
+          "the racy spots: everybody leaves one filter at once, the last subscriber leaves while another arrives at the same / a nested filter. 1/8 'replace': one goroutine publishes 200-600 retained messages (QoS 0 or 1, tags in order, never empty) on one topic while another reads Retained(topic) without pause: "
+          "no read may come back empty (in every linearization the topic has a retained message at every moment) and the tags never go back; the final state is compared with the model. 3/8 'gated': the three schedules of refute/C09.v forced on the provider through the subscriber's "
           "Hash() and the OnCleanUnsubscribe callback. non-trivial = a round with more than one operation or a gated schedule; distinct by case JSON.",
      level_text="Theorems (coq/props/C09.v): the translator reads topics/memlockfree/node.go on every run and reports per structure-changing method whether it takes the structure mutex first (obligation C09_writers_locked over gen/Extracted.v); "
                 "for the protocol machine model/LFProto.v (one atomic access per step: counters, maps, remove flag, WaitGroup, callback; arbitrary scheduler) started in that mode: in EVERY reachable configuration at most one operation is in progress "
@@ -379,7 +380,7 @@ prop("C09",
                 "C09_search_finds_acknowledged_subscription and C09_search_misses_unsubscribed - from any reachable configuration, a subscription in place that no unfinished UNSUBSCRIBE targets is found and a subscriber not registered that no unfinished SUBSCRIBE registers is not, "
                 "whatever is created or pruned around (C09_index_invariant: tree shape, unreachable nodes are empty, counters bound the sets). C09_protocol_shape: the translator re-reads the ORDER of atomic accesses and the shared-state conditions of leafInsertNode, "
                 "subscriptionInsert/Remove, nodesCleanup and the search from node.go and the theorem requires them to be the ones the machine was written against. Partial: an operation on the very pair (path, subscriber) overlapping a search may be seen or not (both are linearizations, no claim); "
-                "retained messages are not in the protocol machine; sequential correctness of operations and search is C01/C07.",
+                "retained messages are not in the protocol machine, except C09_retained_replaced_in_one_store (translator): provider.retain removes only for an empty payload, so the lock-free readers never find a replaced topic empty; sequential correctness of operations and search is C01/C07.",
      level_note="Trusted: Coq kernel + vm_compute; tools/goextract (lock-discipline reader: first statements of the four writers); the hand-written protocol machine (its three refuting schedules and their locked counterparts are replayed on the implementation); "
                 "Go's sync.Mutex / sync.Map / atomic semantics; the Go scheduler for the concurrent rounds (a sample of interleavings, not an enumeration).",
      trusted_base=["tools/goextract: lock discipline of subscriptionInsert / subscriptionRemove / retainInsert / retainRemove; order of atomic accesses (accessShape) of the protocol functions", "Go sync.Mutex, sync.Map and sync/atomic semantics", "Go scheduler (concurrent rounds sample interleavings)"],
